@@ -8,7 +8,6 @@ open Ccp.Py Ccp.Wire Ccp.Input
 def errName : Err → String
   | .fileNotFound => "err:FileNotFoundError"
   | .invalidParameters => "err:InvalidParameters"
-  | .typeError => "err:TypeError"
 
 def decInput (form arg : String) : Option Ccp.Input.Input :=
   match form with
